@@ -315,7 +315,7 @@ func explain(o *Obligation, dir string) string {
 			continue
 		}
 		if t.sort.K == SBool {
-			fmt.Fprintf(&sb, "    %-5s %s\n", v, t.render(5))
+			fmt.Fprintf(&sb, "    %-5s %s\n", v, t.render(9))
 		}
 	}
 	for e, t := range gv {
